@@ -25,12 +25,20 @@ for d in sorted(glob.glob(os.path.join(V, "seeded", "C*"))):
         viol = re.findall(r"^VIOLATION property=\S+ replay=\S+( no-failing-input-found)?", t, re.M)
         first[pid] = {"exit_status": 1 if viol else 0, "violation_lines": len(viol),
                       "note": "result of the check as it stood when this seed arrived (before it was strengthened)"}
+    final = {}
+    for lf in sorted(glob.glob(os.path.join(d, "final_*.log"))):
+        pid = os.path.basename(lf)[6:-4]
+        t = open(lf).read()
+        viol = re.findall(r"^VIOLATION property=\S+ replay=\S+( no-failing-input-found)?", t, re.M)
+        final[pid] = {"exit_status": 1 if viol else 0, "violation_lines": len(viol),
+                      "with_concrete_input": sum(1 for v in viol if not v)}
     m["verif"] = {"confirmed_in_scratch_worktree": "CONFIRMED" in conf,
                   "confirmation": "tools/seed_confirm.sh (see confirm.log): patch == worktree diff, demo fails with it, "
                                   "cargo test --workspace --no-fail-fast --offline passes with it, demo passes without it",
                   "demo": "tools/seeded_demo.sh %s with|without  (fresh scratch worktree)" % os.path.basename(d),
                   "checks_run": runs,
                   "first_version_result": first,
+                  "final_regression": final,
                   "detected_by": sorted(k for k, v in runs.items() if v["exit_status"] == 1)}
     json.dump(m, open(mp, "w"), indent=1)
     print(os.path.basename(d), m["verif"]["confirmed_in_scratch_worktree"], m["verif"]["detected_by"])
